@@ -305,6 +305,13 @@ func run(args []string) error {
 		}
 	}
 	doEnc([]byte{}, "empty")
+	{ // the largest 300-byte value: the longest encoding the size estimate must hold
+		b := make([]byte, 300)
+		for i := range b {
+			b[i] = 0xff
+		}
+		doEnc(b, "all-ff")
+	}
 	for i := 0; i < n; i++ {
 		b, kind := randBytes()
 		doEnc(b, kind)
@@ -339,7 +346,7 @@ func run(args []string) error {
 		case 2: // encodings of random bytes (canonical by construction)
 			b, _ := randBytes()
 			if len(b) > 0 {
-				doDec(base58.Encode(b), "encoded")
+				doDec(genEnc(b), "encoded")
 			}
 		default:
 			doDec(randText(45), "alphabet")
@@ -366,24 +373,26 @@ func run(args []string) error {
 	}
 	for i := 0; i < na; i++ {
 		a := randAddr()
-		good := a.Bytes()
+		good := genBytes(a)
 		switch i % 10 {
 		case 0, 1, 2: // valid
-			doAddr(a.String(), "valid")
+			doAddr(genStr(a), "valid")
 			doAddrBytes(good, "valid")
-		case 3: // wrong checksum (one bit)
-			b := append([]byte{}, good...)
-			b[21+r.Intn(4)] ^= 1 << uint(r.Intn(8))
-			doAddr(base58.Encode(b), "bad-checksum")
-			doAddrBytes(b, "bad-checksum")
+		case 3: // wrong checksum (one bit), once in each of the four bytes
+			for k := 0; k < 4; k++ {
+				b := append([]byte{}, good...)
+				b[21+k] ^= 1 << uint(r.Intn(8))
+				doAddr(genEnc(b), "bad-checksum")
+				doAddrBytes(b, "bad-checksum")
+			}
 		case 4: // key bit flipped, checksum not updated
 			b := append([]byte{}, good...)
 			b[r.Intn(20)] ^= 1 << uint(r.Intn(8))
-			doAddr(base58.Encode(b), "bad-checksum-key")
+			doAddr(genEnc(b), "bad-checksum-key")
 		case 5: // version != 0 with a matching checksum
 			a.Version = byte(1 + r.Intn(255))
-			doAddr(a.String(), "bad-version")
-			doAddrBytes(a.Bytes(), "bad-version")
+			doAddr(genStr(a), "bad-version")
+			doAddrBytes(genBytes(a), "bad-version")
 		case 6: // wrong length
 			b := append([]byte{}, good...)
 			if r.Bool() {
@@ -391,20 +400,20 @@ func run(args []string) error {
 			} else {
 				b = append(b, r.Bytes(1+r.Intn(3))...)
 			}
-			doAddr(base58.Encode(b), "bad-length")
+			doAddr(genEnc(b), "bad-length")
 			doAddrBytes(b, "bad-length")
 		case 7: // non-canonical: extra leading '1' (one more zero byte in front)
-			doAddr("1"+a.String(), "extra-leading-1")
+			doAddr("1"+genStr(a), "extra-leading-1")
 			doAddrBytes(append([]byte{0}, good...), "extra-leading-0")
 		case 8: // malformed text
-			s := a.String()
+			s := genStr(a)
 			p := r.Intn(len(s) + 1)
 			doAddr(s[:p]+bad[r.Intn(len(bad))]+s[p:], "bad-char")
 		default: // last 4 bytes of the digest instead of the first 4; random text
 			if r.Bool() {
 				h := cipher.SumSHA256(good[:21])
 				b := append(append([]byte{}, good[:21]...), h[28:32]...)
-				doAddr(base58.Encode(b), "checksum-from-digest-tail")
+				doAddr(genEnc(b), "checksum-from-digest-tail")
 			} else {
 				doAddr(randText(40), "random-text")
 			}
@@ -430,6 +439,24 @@ func run(args []string) error {
 	o.Side["samples"] = samples
 	o.Side["cases"] = caseJSON
 	return o.Write(f.Out, f.JSON)
+}
+
+// guarded calls used while *generating* inputs (a panic of the implementation
+// is an observable of the groups above, never a harness failure)
+func genEnc(b []byte) string {
+	e := "\x00PANIC"
+	Guard(func() { e = base58.Encode(b) })
+	return e
+}
+func genStr(a cipher.Address) string {
+	e := "\x00PANIC"
+	Guard(func() { e = a.String() })
+	return e
+}
+func genBytes(a cipher.Address) []byte {
+	b := make([]byte, 25)
+	Guard(func() { b = a.Bytes() })
+	return b
 }
 
 func okErr(err error) string {
